@@ -4,6 +4,7 @@ import (
 	"bytes"
 	"errors"
 	"fmt"
+	"sort"
 
 	"github.com/massnetorg/mass-core/blockchain"
 	"github.com/massnetorg/mass-core/debug"
@@ -687,6 +688,24 @@ func (s *TxStore) Rollback(tx mwdb.DBTransaction, height uint64) error {
 		}
 
 		heightsToRemove = append(heightsToRemove, rbBlock.Height)
+
+		// The block record lists the wallet's transactions in the order they were stored.
+		// That is not the block order when a rescan (wallet import) adds a transaction that
+		// precedes, inside the block, one the follower had recorded before. Undo them in
+		// reverse BLOCK order, so that a spender is undone before the transaction whose
+		// output it spends.
+		txStarts := make(map[wire.Hash]int, len(rbBlock.transactions))
+		for i := range rbBlock.transactions {
+			_, recVal := existsTxRecord(nsTxRecords, &rbBlock.transactions[i], &rbBlock.BlockMeta)
+			if _, txLoc, err := readTxRecordLoc(recVal); err == nil {
+				txStarts[rbBlock.transactions[i]] = txLoc.TxStart
+			}
+		}
+		if len(txStarts) == len(rbBlock.transactions) {
+			sort.SliceStable(rbBlock.transactions, func(a, b int) bool {
+				return txStarts[rbBlock.transactions[a]] < txStarts[rbBlock.transactions[b]]
+			})
+		}
 
 		for i := len(rbBlock.transactions) - 1; i >= 0; i-- {
 			txHash := &rbBlock.transactions[i]
